@@ -59,6 +59,10 @@ Check(t) ==
          ELSE IF \E i \in DOMAIN t.norm : In(e, [val |-> t.norm[i].q.val, w |-> 1])
                                           /\ \E j \in DOMAIN t.norm[i].out : t.norm[i].out[j] > 256 + Tol \/ t.norm[i].out[j] < -256 - Tol
               THEN <<"normalization-outside-unit-box", DepBox(e), Len(rows)>>          \* (the layer is built from the estimated box)
+         \* the layer selects its input by variable name: the same points with the variables in the opposite order have the same images
+         ELSE IF "norm_perm_exc" \in DOMAIN t /\ t.norm_perm_exc # "" THEN <<"normalization-layer-failed(permuted variables):" \o t.norm_perm_exc, "", Len(rows)>>
+         ELSE IF "norm_perm" \in DOMAIN t /\ (Len(t.norm_perm) # Len(t.norm) \/ \E i \in DOMAIN t.norm : t.norm_perm[i] # t.norm[i].out)
+              THEN <<"normalization-depends-on-variable-order", "", Len(rows)>>
          ELSE <<"ok", "", Len(rows)>>
 Init == tid \in 1..Len(Traces) /\ LET r == Check(Traces[tid]) IN verdict = r[1] /\ dev = r[2] /\ judged = r[3]
 Next == FALSE /\ UNCHANGED <<tid, verdict, dev, judged>>
